@@ -16,7 +16,8 @@ IAdd(a, b) == a + b
 IMul(a, b) == a * b
 ILeq(a, b) == a <= b
 IFrom(n) == n
-C == INSTANCE Calibrate WITH Zero <- 0, Add <- IAdd, Mul <- IMul, Leq <- ILeq, FromInt <- IFrom
+ISlack(n) == n
+C == INSTANCE Calibrate WITH Zero <- 0, Add <- IAdd, Mul <- IMul, Leq <- ILeq, FromInt <- IFrom, Slack <- ISlack
 
 VARIABLES D, Y, strategy, b2n, mrn
 vars == <<D, Y, strategy, b2n, mrn>>
